@@ -292,13 +292,15 @@ pub fn multipart_body() -> impl Strategy<Value = Bytes> {
         4 => ("[a-z]{1,6}", "[ -~]{0,20}").prop_map(|(n, v)| format!("Content-Disposition: form-data; name=\"{}\"\r\n\r\n{}\r\n", n, v).into_bytes()),
         1 => ("[a-z]{1,6}", proptest::collection::vec(any::<u8>(), 0..30)).prop_map(|(n, v)| { let mut b = format!("Content-Disposition: form-data; name=\"{}\"; filename=\"f.bin\"\r\nContent-Type: application/octet-stream\r\n\r\n", n).into_bytes(); b.extend_from_slice(&v); b.extend_from_slice(b"\r\n"); b }),
         1 => Just(b"Content-Disposition: form-data\r\n\r\nv\r\n".to_vec()),
+        // dispositions that are none: another type, a bare parameter, parameters the endpoint has no use for
+        1 => prop::sample::select(vec!["file; name=\"a\"", "x-unknown; name=\"a\"", "form-data; name", "form-data; name=\"a\"; extra=\"b\"", "Form-Data; name=\"a\"", "form-data; filename=\"f\""]).prop_map(|d| format!("Content-Disposition: {}\r\n\r\nv\r\n", d).into_bytes()),
         1 => Just(b"X-Other: 1\r\n\r\nv\r\n".to_vec()),
         1 => Just(b"\r\nv\r\n".to_vec()),
         1 => Just(b"Content-Disposition: form-data; name=\"a\"\r\n".to_vec()),
         1 => Just(b"Content-Disposition form-data\r\n\r\nv\r\n".to_vec()),
         1 => Just(b"Content-Disposition: form-data; name=\"a\"\r\n\r\n".to_vec()),
     ];
-    (proptest::collection::vec(part, 0..4), prop::sample::select(vec!["--XB--\r\n", "--XB--", "--XB\r\n", "", "XB"]), prop::sample::select(vec!["--XB\r\n", "--XB\r\n", "XB\r\n", "", "--YB\r\n"]))
+    (proptest::collection::vec(part, 0..4), prop::sample::select(vec!["--XB--\r\n", "--XB--\r\n", "--XB--\r\n", "--XB--", "--XB--", "--XB\r\n", "", "XB"]), prop::sample::select(vec!["--XB\r\n", "--XB\r\n", "--XB\r\n", "--XB\r\n", "XB\r\n", "", "--YB\r\n"]))
         .prop_map(|(parts, end, start)| { let mut b = start.as_bytes().to_vec(); for (i, p) in parts.iter().enumerate() { if i > 0 { b.extend_from_slice(b"--XB\r\n"); } b.extend_from_slice(p); } b.extend_from_slice(end.as_bytes()); Bytes(b) })
 }
 
@@ -323,7 +325,7 @@ pub fn coherent_base() -> impl Strategy<Value = Base> {
             Base { method: "GET".into(), target: p.to_string(), version: "HTTP/1.1".into(), headers: h, body: Bytes(vec![]) }
         }),
         1 => body_strategy().prop_map(|b| Base { method: "POST".into(), target: "/form-url-encoded-enctype-post-method".into(), version: "HTTP/1.1".into(), headers: vec![("Content-Type".into(), Bytes(b"application/x-www-form-urlencoded".to_vec()))], body: b }),
-        1 => multipart_body().prop_map(|b| Base { method: "POST".into(), target: "/form-multipart-enctype-post-method".into(), version: "HTTP/1.1".into(), headers: vec![("Content-Type".into(), Bytes(b"multipart/form-data; boundary=XB".to_vec()))], body: b }),
+        2 => multipart_body().prop_map(|b| Base { method: "POST".into(), target: "/form-multipart-enctype-post-method".into(), version: "HTTP/1.1".into(), headers: vec![("Content-Type".into(), Bytes(b"multipart/form-data; boundary=XB".to_vec()))], body: b }),
         1 => body_strategy().prop_map(|b| Base { method: "POST".into(), target: "/form-multipart-enctype-post-method".into(), version: "HTTP/1.1".into(), headers: vec![("Content-Type".into(), Bytes(b"multipart/form-data; boundary=XB".to_vec()))], body: b }),
         1 => ("[a-z]{0,4}", "[ -~&&[^ #]]{0,12}").prop_map(|(k, v)| Base { method: "GET".into(), target: format!("/form-get-method?{}={}", k, v), version: "HTTP/1.1".into(), headers: vec![], body: Bytes(vec![]) }),
         1 => "[ -~&&[^ #]]{0,30}".prop_map(|q| Base { method: "POST".into(), target: format!("/file-upload/initiate?{}", q), version: "HTTP/1.1".into(), headers: vec![], body: Bytes(vec![]) }),
